@@ -200,7 +200,7 @@ def main(tier: str, seed: int) -> int:
             for c in (439, 440, 619, 620, 2175, 2176, 1307, 1308)
         ] + [
             dict(cap=c, types=small_types, roles=['world', 'worldx', 'rowx'],
-                 max_calls=4) for c in (700, 2500)
+                 max_calls=3) for c in (700, 2500)
         ] + [
             dict(cap=1000, types=T,
                  roles=['world', 'worldx', 'row', 'rowx', 'col'], max_calls=7,
